@@ -243,38 +243,59 @@ func (og *OverlapGenerator) truncateOverlap(overlap string) string {
 		return overlap
 	}
 
-	// Try to truncate at a sentence boundary
+	// Try to truncate at a sentence boundary. The overlap is the END of the
+	// previous chunk, so what is kept is its end too: the last sentences that
+	// fit, or the last MaxOverlap bytes
 	sentences := splitIntoSentencesWithPositions(overlap)
 	if len(sentences) == 0 {
 		// No sentences, truncate at word boundary
-		return og.generateCharacterOverlap(truncateAtRuneBoundary(overlap, og.config.MaxOverlap))
+		return og.generateCharacterOverlap(suffixAtRuneBoundary(overlap, og.config.MaxOverlap))
 	}
 
-	// Find how many sentences fit within MaxOverlap
-	var result strings.Builder
-	for _, s := range sentences {
-		test := result.String()
-		if result.Len() > 0 {
-			test += " "
+	// Find how many sentences, counted from the end, fit within MaxOverlap
+	first := len(sentences)
+	size := 0
+	for i := len(sentences) - 1; i >= 0; i-- {
+		add := len(sentences[i].text)
+		if first < len(sentences) {
+			add++ // the space between two sentences
 		}
-		test += s.text
-
-		if len(test) > og.config.MaxOverlap {
+		if size+add > og.config.MaxOverlap {
 			break
 		}
+		size += add
+		first = i
+	}
 
+	if first == len(sentences) {
+		// Last sentence exceeds max, truncate it
+		return og.generateCharacterOverlap(suffixAtRuneBoundary(overlap, og.config.MaxOverlap))
+	}
+
+	var result strings.Builder
+	for i := first; i < len(sentences); i++ {
 		if result.Len() > 0 {
 			result.WriteString(" ")
 		}
-		result.WriteString(s.text)
+		result.WriteString(sentences[i].text)
 	}
-
-	if result.Len() == 0 {
-		// First sentence exceeds max, truncate it
-		return og.generateCharacterOverlap(truncateAtRuneBoundary(overlap, og.config.MaxOverlap))
-	}
-
 	return result.String()
+}
+
+// suffixAtRuneBoundary returns the longest suffix of s that is at most max
+// bytes long and does not start inside a multi-byte character.
+func suffixAtRuneBoundary(s string, max int) string {
+	if max >= len(s) {
+		return s
+	}
+	if max < 0 {
+		max = 0
+	}
+	start := len(s) - max
+	for start < len(s) && !utf8.RuneStart(s[start]) {
+		start++
+	}
+	return s[start:]
 }
 
 // truncateAtRuneBoundary returns the longest prefix of s that is at most max
